@@ -42,6 +42,7 @@ import (
 
 var c17Values = []string{`1`, `"ab"`, `{"a":[1]}`, `[]`, `true`, `12.5e1`}
 var c17Seps = []string{"", " ", "\n"}
+
 // a negative size means: that size with the stream-buffer pool left ON (a released buffer is
 // handed to the next decoder, so data that still refers to it is overwritten)
 var c17BufSizes = []int{1, 4, 16, 4096, -4096}
